@@ -770,6 +770,13 @@ def gen_catalog():
         if not re.search(r"v\.is_empty\(\) \|\| v\.contains\(';'\)", body):
             raise TranslateError("anchor missing: enumeration value check of create_table")
         out.append("Definition CREATE_TABLE_CHECKS_ENUM_VALUES : bool := true.")
+    # does create_table dry-run the three catalog inserts (Insert::check) before it changes anything?
+    with attempt("CREATE_TABLE_DRY_RUNS"):
+        fl = re.sub(r"\s+", "", body)
+        if re.search(r"Insert::into\(\w+\)\.rows\([^;]*\)\.check\(", fl) and "fn check<" in strip_tests(src("src/internal/query.rs")):
+            out.append("Definition CREATE_TABLE_DRY_RUNS : bool := true.  (* create_table dry-runs the three catalog inserts (Insert::check) before changing anything *)")
+        else:
+            raise TranslateError("anchor missing: dry runs of the catalog inserts in create_table")
     # in a package without _Validation: are range / foreign key / category / enumeration refused (cells 3..8 of the row)?
     with attempt("CREATE_TABLE_REFUSES_UNRECORDABLE"):
         fl = re.sub(r"\s+", "", body)
@@ -838,6 +845,14 @@ def gen_io():
             out.append("Definition IO_FLUSH_PROPAGATES : bool := true.  (* Package::flush returns the finisher's and the container's errors *)")
         else:
             raise TranslateError("IO_FLUSH_PROPAGATES: shape of Package::flush not recognised")
+    with attempt("IO_CREATE_PROPAGATES"):
+        cr = flat(fn_body(pk, "pub fn create(inner: F", "package.rs"))
+        if re.search(r"\.flush\(\)\s*\?\s*;", cr):
+            out.append("Definition IO_CREATE_PROPAGATES : bool := true.  (* Package::create returns the error of its own final flush *)")
+        elif re.search(r"\.flush\(\)\s*(?:\.ok\(\)|\.unwrap_or|\.is_err\(\)|;)", cr) or re.search(r"let _ = [^;]*\.flush\(\)", cr):
+            out.append("Definition IO_CREATE_PROPAGATES : bool := false.  (* Package::create discards the result of its final flush *)")
+        else:
+            raise TranslateError("IO_CREATE_PROPAGATES: the final flush of Package::create not recognised")
     with attempt("IO_EXEC_PROPAGATES"):
         q = flat(qy)
         n_exec = len(re.findall(r"\.write_rows\(", q))
